@@ -41,9 +41,13 @@ const (
 	winExpired
 	winFuture
 	nWindows
+	// outside the product: the validity window ends / begins at certParams.Boundary, a few
+	// seconds after the certificate is made (the time dimension of the check)
+	winExpiring = nWindows
+	winStarting = nWindows + 1
 )
 
-var windowName = []string{"valid", "expired", "not-yet-valid"}
+var windowName = []string{"valid", "expired", "not-yet-valid", "expires-in-seconds", "valid-in-seconds"}
 
 const (
 	ekuServer = iota
@@ -135,8 +139,9 @@ func newPKI() *pki {
 
 type certParams struct {
 	Issuer, Window, EKU, Names int
-	E, O, O2                   string // node IDs: expected, others
-	D, DOther                  string // DNS names: expected, other
+	E, O, O2                   string    // node IDs: expected, others
+	D, DOther                  string    // DNS names: expected, other
+	Boundary                   time.Time // whole second; for winExpiring / winStarting
 }
 
 func (cp certParams) String() string {
@@ -156,8 +161,9 @@ type certCase struct {
 	// facts, from the parameters
 	Present, Parses              bool
 	ChainRoots, ChainClientCAs   bool
-	TimeOK, EKUServer, EKUClient bool
-	NamesOK                      bool // every ID is valid UTF-8 (ReceptorNames succeeds)
+	TimeOK, EKUServer, EKUClient bool  // TimeOK: inside the window when the certificate was made
+	NB, NA                       int64 // the window in which the whole chain is valid, unix nanoseconds
+	NamesOK                      bool  // every ID is valid UTF-8 (ReceptorNames succeeds)
 	D224, D256, D384, D512       []byte
 }
 
@@ -267,8 +273,12 @@ func (p *pki) make(cp certParams) *certCase {
 		tpl.NotBefore, tpl.NotAfter = p.now.Add(-time.Hour), p.now.Add(240*time.Hour)
 	case winExpired:
 		tpl.NotBefore, tpl.NotAfter = p.now.Add(-48*time.Hour), p.now.Add(-time.Hour)
-	default:
+	case winFuture:
 		tpl.NotBefore, tpl.NotAfter = p.now.Add(time.Hour), p.now.Add(48*time.Hour)
+	case winExpiring:
+		tpl.NotBefore, tpl.NotAfter = p.now.Add(-time.Hour), cp.Boundary
+	default: // winStarting
+		tpl.NotBefore, tpl.NotAfter = cp.Boundary, p.now.Add(48*time.Hour)
 	}
 	switch cp.EKU {
 	case ekuServer:
@@ -310,7 +320,18 @@ func (p *pki) make(cp certParams) *certCase {
 	cc.Present, cc.Parses = true, true
 	cc.ChainRoots = cp.Issuer == issRoot || cp.Issuer == issInterOK
 	cc.ChainClientCAs = cp.Issuer == issClient || cp.Issuer == issInterOK
-	cc.TimeOK = cp.Window == winValid
+	cc.TimeOK = cp.Window == winValid || cp.Window == winExpiring
+	// x509 encodes whole seconds; the issuing CAs are valid from a day ago for ten years
+	nb, na := tpl.NotBefore.Truncate(time.Second), tpl.NotAfter.Truncate(time.Second)
+	if cp.Issuer != issSelf {
+		if signer.NotBefore.After(nb) {
+			nb = signer.NotBefore
+		}
+		if signer.NotAfter.Before(na) {
+			na = signer.NotAfter
+		}
+	}
+	cc.NB, cc.NA = nb.UnixNano(), na.UnixNano()
 	cc.EKUServer = cp.EKU == ekuServer || cp.EKU == ekuBoth || cp.EKU == ekuAbsent
 	cc.EKUClient = cp.EKU == ekuClient || cp.EKU == ekuBoth || cp.EKU == ekuAbsent
 	cc.NamesOK = true
@@ -397,9 +418,9 @@ func (cc *certCase) coqFacts() string {
 	if cc.SAN != nil {
 		san = "(Some " + hxp(cc.SAN) + ")"
 	}
-	return fmt.Sprintf("(facts_of %s %s %s %s %s %s %s %s %s %s %s %s %s)",
+	return fmt.Sprintf("(facts_of %s %s %s %s %s %s %s %s %d %d %s %s %s %s)",
 		CoqBool(cc.Present), CoqBool(cc.Parses), hxp(cc.D224), hxp(cc.D256), hxp(cc.D384), hxp(cc.D512),
-		CoqBool(cc.ChainRoots), CoqBool(cc.ChainClientCAs), CoqBool(cc.TimeOK), CoqBool(cc.EKUServer), CoqBool(cc.EKUClient),
+		CoqBool(cc.ChainRoots), CoqBool(cc.ChainClientCAs), cc.NB, cc.NA, CoqBool(cc.EKUServer), CoqBool(cc.EKUClient),
 		hxpStrs(cc.DNS), san)
 }
 
